@@ -23,19 +23,41 @@ fn gid16s(env: &Env) -> Vec<u16> {
     v
 }
 
+/// Glyphs a start..=end glyph range encodes (none when it is backwards).
+fn range_len(start: u16, end: u16) -> u64 {
+    if start > end {
+        0
+    } else {
+        (end - start) as u64 + 1
+    }
+}
+
+/// Number of glyphs the coverage table encodes, counted record by record
+/// (format 1: glyphCount; format 2: sum of the range lengths, overlapping
+/// ranges counted as often as they are encoded).
+fn coverage_encoded_glyphs(cov: &CoverageTable) -> u64 {
+    match cov {
+        CoverageTable::Format1(t) => t.glyph_array().len() as u64,
+        CoverageTable::Format2(t) => t.range_records().iter().map(|r| range_len(r.start_glyph_id().to_u16(), r.end_glyph_id().to_u16())).sum(),
+    }
+}
+
+fn class_def_encoded_glyphs(cd: &ClassDef) -> u64 {
+    match cd {
+        ClassDef::Format1(t) => t.class_value_array().len() as u64,
+        ClassDef::Format2(t) => t.class_range_records().iter().map(|r| range_len(r.start_glyph_id().to_u16(), r.end_glyph_id().to_u16())).sum(),
+    }
+}
+
 pub fn coverage(o: &mut Obs, env: &Env, cov: &CoverageTable) {
     let cap = env.cap(200_000, 2_000);
-    o.helper("CoverageTable::iter");
-    let mut n = 0u64;
     let mut probes: Vec<u16> = vec![];
-    for g in cov.iter().take(cap) {
+    o.drain("CoverageTable::iter", "sum(range lengths)|glyphCount", coverage_encoded_glyphs(cov), cap, cov.iter(), |o, g| {
         o.d.u32(g.to_u32());
-        if n < 6 {
+        if probes.len() < 18 {
             probes.extend([g.to_u16().wrapping_sub(1), g.to_u16(), g.to_u16().wrapping_add(1)]);
         }
-        n += 1;
-    }
-    o.d.u64(n);
+    });
     probes.extend([0, 1, 0x7FFF, 0xFFFE, 0xFFFF]);
     for g in probes {
         o.helper("CoverageTable::get");
@@ -56,7 +78,7 @@ pub fn coverage(o: &mut Obs, env: &Env, cov: &CoverageTable) {
             for r in t.range_records().iter().take(8) {
                 o.helper("RangeRecord::population");
                 o.d.u64(r.population() as u64);
-                o.d.u64(r.iter().take(cap).count() as u64);
+                o.drain("RangeRecord::iter", "range length", range_len(r.start_glyph_id().to_u16(), r.end_glyph_id().to_u16()), cap, r.iter(), |_, _| {});
             }
         }
     }
@@ -70,18 +92,16 @@ pub fn coverage(o: &mut Obs, env: &Env, cov: &CoverageTable) {
 
 pub fn class_def(o: &mut Obs, env: &Env, cd: &ClassDef) {
     let cap = env.cap(200_000, 2_000);
-    o.helper("ClassDef::iter");
-    let mut n = 0u64;
     let mut probes: Vec<u16> = gid16s(env);
-    for (g, c) in cd.iter().take(cap) {
+    let fixed = probes.len();
+    let encoded = class_def_encoded_glyphs(cd);
+    o.drain("ClassDef::iter", "sum(range lengths)|glyphCount", encoded, cap, cd.iter(), |o, (g, c)| {
         o.d.u32(g.to_u32());
         o.d.u32(c as u32);
-        if n < 6 {
+        if probes.len() < fixed + 18 {
             probes.extend([g.to_u16().wrapping_sub(1), g.to_u16(), g.to_u16().wrapping_add(1)]);
         }
-        n += 1;
-    }
-    o.d.u64(n);
+    });
     for g in probes {
         o.helper("ClassDef::get");
         o.d.u32(cd.get(GlyphId16::new(g)) as u32);
@@ -91,6 +111,7 @@ pub fn class_def(o: &mut Obs, env: &Env, cd: &ClassDef) {
     match cd {
         ClassDef::Format1(t) => {
             o.d.u64(t.population() as u64);
+            // (the same iterator as ClassDef::iter above, which is the monitored one)
             o.d.u64(t.iter().take(cap).count() as u64);
             o.d.u32(t.get(GlyphId16::new(t.start_glyph_id().to_u16().wrapping_sub(1))) as u32);
         }
@@ -106,13 +127,10 @@ pub fn class_def(o: &mut Obs, env: &Env, cd: &ClassDef) {
 }
 
 pub fn device(o: &mut Obs, d: &Device) {
-    o.helper("Device::iter");
-    let mut n = 0u32;
-    for v in d.iter().take(70_000) {
-        o.d.i64(v as i64);
-        n += 1;
-    }
-    o.d.u32(n);
+    // (one value per ppem size from startSize to endSize, and never more than the words hold)
+    let sizes = (d.end_size() as u64 + 1).saturating_sub(d.start_size() as u64);
+    let held = d.delta_value().len() as u64 * 8;
+    o.drain("Device::iter", "min(endSize-startSize+1,8*words)", sizes.min(held), 70_000, d.iter(), |o, v| o.d.i64(v as i64));
 }
 
 pub fn device_or_var(o: &mut Obs, d: &DeviceOrVariationIndex) {
@@ -249,7 +267,9 @@ where
             Err(e) => o.err(&e),
         }
     }
-    for (i, t) in st.iter().take(env.cap(4096, 8)).enumerate() {
+    // (the lazily resolved subtables: one per offset)
+    let mut i = 0usize;
+    o.drain("Subtables::iter", "subTableCount", n as u64, env.cap(4096, 8), st.iter(), |o, t| {
         match t {
             Ok(t) => {
                 // typed subtable (extension resolved): generic traversal + typed helpers
@@ -260,7 +280,8 @@ where
             }
             Err(e) => o.err(&e),
         }
-    }
+        i += 1;
+    });
     if n > 0 {
         match st.get(n - 1) {
             Ok(_) => o.d.bytes(&[1]),
